@@ -890,6 +890,7 @@ pub fn run(ctx: &mut Ctx) {
     scheme_run::<generic::Ipa>(ctx, &schemas, n);
     scheme_run::<generic::Pst13>(ctx, &schemas, n);
     pst13_degree_zero_keys(ctx);
+    optional_identity_parts(ctx);
     ctx.flush_model("C12-pst13");
     scheme_run::<generic::Hyrax>(ctx, &schemas, n);
     scheme_run::<generic::UniLigero>(ctx, &schemas, ctx.n(2, 10));
@@ -950,4 +951,42 @@ fn pst13_degree_zero_keys(ctx: &mut Ctx) {
         }
         ctx.rep.case(&format!("pst13 degree-zero keys d={} nv={} round trips", d, nv), Some(format!("pst13-degree-zero-key/{}/{}", d, nv)));
     }
+}
+
+/// A commitment made under a degree bound for the ZERO polynomial (non-hiding) has the identity as its shifted
+/// part: `Some(identity)`, which must not come back as `None` (nor `None` as `Some(identity)`), in any mode.
+/// MarlinKZG10 and IPA commitments (the two with an optional shifted part).
+fn optional_identity_parts(ctx: &mut Ctx) {
+    use ark_bls12_381::G1Affine;
+    use ark_ec::AffineRepr;
+    let id = "C12/optional-identity-parts".to_string();
+    if !ctx.selected(&id) {
+        return;
+    }
+    let mut rng = rng_for(ctx.seed, "C12/optional-identity-parts", 0);
+    let g = G1Affine::rand(&mut rng);
+    let mut problems = vec![];
+    for (c, cname) in COMPRESS.iter() {
+        for (a, b) in [(g, Some(G1Affine::zero())), (G1Affine::zero(), Some(G1Affine::zero())), (g, None), (G1Affine::zero(), None), (g, Some(g))] {
+            let m = ark_poly_commit::marlin_pc::Commitment::<Bls12_381> { comm: kzg10::Commitment(a), shifted_comm: b.map(kzg10::Commitment) };
+            let mut bytes = vec![];
+            let ok = m.serialize_with_mode(&mut bytes, *c).is_ok()
+                && matches!(ark_poly_commit::marlin_pc::Commitment::<Bls12_381>::deserialize_with_mode(&bytes[..], *c, Validate::Yes), Ok(ref x) if *x == m);
+            if !ok {
+                problems.push(format!("marlin commitment (comm identity: {}, shifted {:?}) {}", a.is_zero(), b.map(|x| x.is_zero()), cname));
+            }
+            let i = ark_poly_commit::ipa_pc::Commitment::<G1Affine> { comm: a, shifted_comm: b };
+            let mut bytes = vec![];
+            let ok = i.serialize_with_mode(&mut bytes, *c).is_ok()
+                && matches!(ark_poly_commit::ipa_pc::Commitment::<G1Affine>::deserialize_with_mode(&bytes[..], *c, Validate::Yes), Ok(ref x) if *x == i);
+            if !ok {
+                problems.push(format!("ipa commitment (comm identity: {}, shifted {:?}) {}", a.is_zero(), b.map(|x| x.is_zero()), cname));
+            }
+        }
+    }
+    if !problems.is_empty() {
+        ctx.rep.expect_fail(&id, "commitment/optional-part-round-trip", &format!("round trip changes the value: {}", problems.join("; ")),
+            format!("# property C12\n# case: {}\n# {}\n", id, problems.join("\n# ")));
+    }
+    ctx.rep.case(&format!("optional identity parts: {} problems", problems.len()), Some("optional-identity-parts".into()));
 }
